@@ -3,9 +3,11 @@
 //	c15 select <cases.ndjson> <out.json>
 //	    every line is a case printed by TLC from spec/Generator.tla part (a): a pool (3 senders, transactions in nonce
 //	    order with fee rank, size and verify/execute outcome) and, for the size limits 1..6, the set of admissible
-//	    payloads.  The pool is concretised into real transactions (fee / size = rank * 1000, size = z * Unit bytes),
-//	    handed - shuffled - to the real selectTransactionsByFee (+ limitTransactionsWithSize) through
-//	    Generator.VerifSelectByFee with an ABI whose VerifyTransaction / ExecuteTransaction answers follow the case.
+//	    payloads.  The pool is concretised into real transactions (size = z * Unit bytes; fee priority by one of two
+//	    rank tables: rank * 1000, or the boundary table 0, 1, 999, 1000, 2^31, 2^40 with up to size-1 units of fee on top:
+//	    same integer priority), handed - shuffled - to the real selectTransactionsByFee (+ limitTransactionsWithSize)
+//	    through Generator.VerifSelectByFee with an ABI whose VerifyTransaction / ExecuteTransaction answers follow the
+//	    case (ok / invalid / pending / executed-with-result-Fail / the call returns an error).
 //
 //	c15 forge <scripts.ndjson> <cases.ndjson> <config.json> <out.json>
 //	    every line of scripts is a forge / recv / switch / restart script printed by TLC from part (b) with the expected
@@ -13,7 +15,12 @@
 //	    real txpool filled from the cases) wired to the real consensus.Executer of internal/node through a wrapper
 //	    that intercepts AddInternal; every produced block is processed by that Executer and must be accepted.  The
 //	    last Forge of a script runs through the unmodified forge() at wall-clock time, the earlier ones through
-//	    VerifForgeOnce(time of their slot).
+//	    VerifForgeOnce(time of their slot).  After a script that ended with the unmodified forge() the node is restarted
+//	    and the same generator signs one more header (not processed: its slot lies in the future) whose
+//	    maxHeightGenerated must be what the specification expects (field "next" of the script).
+//
+//	c15 guard <generator.go> <export_verif.go>
+//	    prints whether VerifForgeOnce still is forge() apart from the documented differences (go/ast comparison).
 package main
 
 import (
@@ -61,39 +68,62 @@ type Violation struct {
 }
 
 type Out struct {
-	Mode        string         `json:"mode"`
-	Cases       int            `json:"cases"`
-	Selections  int            `json:"selections"`
-	Shapes      map[string]int `json:"case_shapes"`
-	WithFailure int            `json:"cases_with_failed_tx"`
-	LimitHit    int            `json:"selections_stopped_by_limit"`
-	Ambiguous   int            `json:"selections_with_several_admissible_payloads"`
-	Scripts     int            `json:"scripts"`
-	Steps       int            `json:"steps"`
-	Forges      int            `json:"forges"`
-	RealForges  int            `json:"forges_through_unmodified_forge"`
-	Crashes     int            `json:"crash_forges"`
-	Restarts    int            `json:"restarts"`
-	Switches    int            `json:"switches"`
-	Shorter     int            `json:"switches_to_shorter_chain"`
-	LowerForges int            `json:"forges_below_largest_height_ever"`
-	Accepted    int            `json:"generated_blocks_accepted"`
-	Rejected    int            `json:"generated_blocks_rejected"`
-	WithTxs     int            `json:"generated_blocks_with_transactions"`
-	TxsIncluded int            `json:"transactions_included"`
-	NonEmptyAC  int            `json:"generated_blocks_with_aggregate_commit"`
-	SubsetAC    int            `json:"aggregate_commits_of_signer_subset"`
-	Pairs       int            `json:"header_pairs_checked_for_contradiction"`
-	InfoReads   int            `json:"generator_info_reads_compared"`
-	Extras      map[string]int `json:"directed_scenarios"`
-	Errors      []string       `json:"harness_errors"`
-	Violations  []Violation    `json:"violations"`
-	PerKey      map[string]int `json:"violations_per_key"`
+	Mode          string         `json:"mode"`
+	Cases         int            `json:"cases"`
+	Selections    int            `json:"selections"`
+	Shapes        map[string]int `json:"case_shapes"`
+	WithFailure   int            `json:"cases_with_failed_tx"`
+	LimitHit      int            `json:"selections_stopped_by_limit"`
+	Ambiguous     int            `json:"selections_with_several_admissible_payloads"`
+	Scripts       int            `json:"scripts"`
+	Steps         int            `json:"steps"`
+	Forges        int            `json:"forges"`
+	RealForges    int            `json:"forges_through_unmodified_forge"`
+	Crashes       int            `json:"crash_forges"`
+	Restarts      int            `json:"restarts"`
+	Switches      int            `json:"switches"`
+	Shorter       int            `json:"switches_to_shorter_chain"`
+	LowerForges   int            `json:"forges_below_largest_height_ever"`
+	Accepted      int            `json:"generated_blocks_accepted"`
+	Rejected      int            `json:"generated_blocks_rejected"`
+	WithTxs       int            `json:"generated_blocks_with_transactions"`
+	TxsIncluded   int            `json:"transactions_included"`
+	NonEmptyAC    int            `json:"generated_blocks_with_aggregate_commit"`
+	SubsetAC      int            `json:"aggregate_commits_of_signer_subset"`
+	Pairs         int            `json:"header_pairs_checked_for_contradiction"`
+	InfoReads     int            `json:"generator_info_reads_compared"`
+	InfoLayout    int            `json:"generator_info_records_not_in_todays_layout"`
+	Declined      int            `json:"forges_declined_or_failed_without_block"`
+	DeclinedNotes []string       `json:"declined_notes"`
+	SelAborted    int            `json:"selections_aborted_with_error"`
+	Epilogues     int            `json:"restart_and_next_header_after_unmodified_forge"`
+	EpiBelow      int            `json:"of_these_after_a_forge_below_the_largest_height_ever"`
+	ChgForges     int            `json:"forges_after_validator_set_change"`
+	ChgFirst      int            `json:"forges_directly_after_the_changing_block"`
+	TwoAssets     int            `json:"generated_blocks_with_two_unsorted_assets"`
+	AfterEvents   int            `json:"generated_blocks_with_after_hook_event"`
+	FailTxs       int            `json:"generated_blocks_with_failed_but_included_transaction"`
+	ErrPools      int            `json:"forges_with_abi_error_in_pool"`
+	TabBoundary   int            `json:"selections_with_boundary_rank_table"`
+	Wide          int            `json:"selections_with_5_or_more_senders"`
+	Deep          int            `json:"selections_with_7_or_more_transactions_taken"`
+	OutcomeSel    map[string]int `json:"selection_cases_per_outcome"`
+	SkipUsed      int            `json:"selections_that_skip_a_candidate_that_does_not_fit"`
+	LimitDelta    map[string]int `json:"selections_per_limit_delta_bytes"`
+	ExactSel      int            `json:"selections_filling_the_limit_exactly"`
+	ExactFill     map[string]int `json:"generated_blocks_filling_the_limit_to_the_byte_by_transactions"`
+	ExactFillReal map[string]int `json:"of_these_through_unmodified_forge"`
+	DeltaForge    map[string]int `json:"generated_blocks_per_limit_delta_bytes"`
+	Extras        map[string]int `json:"directed_scenarios"`
+	Errors        []string       `json:"harness_errors"`
+	Violations    []Violation    `json:"violations"`
+	PerKey        map[string]int `json:"violations_per_key"`
 }
 
 var (
-	out = &Out{Shapes: map[string]int{}, Extras: map[string]int{}, PerKey: map[string]int{}}
-	mu  sync.Mutex
+	out = &Out{Shapes: map[string]int{}, Extras: map[string]int{}, PerKey: map[string]int{}, OutcomeSel: map[string]int{},
+		LimitDelta: map[string]int{}, ExactFill: map[string]int{}, ExactFillReal: map[string]int{}, DeltaForge: map[string]int{}}
+	mu sync.Mutex
 )
 
 func viol(key, what string, replay interface{}) {
@@ -134,10 +164,38 @@ type Case struct {
 
 func senderKey(s int) []byte { return bytes.Repeat([]byte{byte(0x40 + s)}, 32) }
 
-// mkTx builds a transaction of exactly z*Unit bytes whose fee priority (fee / size) is rank*1000.
-func mkTx(sender int, nonce uint64, rank, z int, salt uint64) *blockchain.Transaction {
+// good: the transaction goes into the block (Generator.tla Good): success, or executed with result Fail
+func good(o string) bool { return o == "ok" || o == "xe" }
+
+// rank tables: the specification only knows the ORDER of fee priorities (ranks); the concrete priorities are
+//
+//	table 0: rank * 1000
+//	table 1: boundary values - 0 (no fee at all), 1, 999, 1000, 2^31 (beyond int32 / uint32), 2^40
+var boundary = []uint64{0, 1, 999, 1000, 1 << 31, 1 << 40}
+
+func priority(rank, tab int) uint64 {
+	if tab == 1 && rank >= 1 && rank <= len(boundary) {
+		return boundary[rank-1]
+	}
+	if tab == 1 {
+		return 1<<40 + uint64(rank)*1000
+	}
+	return uint64(rank) * 1000
+}
+
+// mkTx builds a transaction of exactly z*Unit bytes whose fee priority (fee / size, integer division) is
+// priority(rank, tab); with table 1 every other transaction pays up to size-1 more (same integer priority).
+func mkTx(sender int, nonce uint64, rank, z int, salt uint64, tab int, outcome string) *blockchain.Transaction {
 	size := z * Unit
-	tx := &blockchain.Transaction{Module: "toy", Command: "ok", Nonce: nonce, Fee: uint64(rank) * 1000 * uint64(size),
+	fee := priority(rank, tab) * uint64(size)
+	if tab == 1 && (uint64(sender)+nonce+salt)%2 == 0 {
+		fee += uint64(size) - 1 - (uint64(sender)*7+nonce)%3
+	}
+	command := "ok"
+	if outcome == "xe" {
+		command = node.FailCommand
+	}
+	tx := &blockchain.Transaction{Module: "toy", Command: command, Nonce: nonce, Fee: fee,
 		SenderPublicKey: senderKey(sender), Signatures: []codec.Hex{bytes.Repeat([]byte{9}, 64)}}
 	pad := size - 130
 	for i := 0; i < 8; i++ {
@@ -162,11 +220,11 @@ type concrete struct {
 	outcome map[string]string
 }
 
-func concretise(c *Case, salt uint64) *concrete {
+func concretise(c *Case, salt uint64, tab int) *concrete {
 	cc := &concrete{where: map[string][2]int{}, outcome: map[string]string{}}
 	for s, list := range c.Pool {
 		for i, k := range list {
-			tx := mkTx(s+1, uint64(i), k.R, k.Z, salt)
+			tx := mkTx(s+1, uint64(i), k.R, k.Z, salt, tab, k.O)
 			cc.txs = append(cc.txs, tx)
 			cc.where[string(tx.ID)] = [2]int{s + 1, i + 1}
 			cc.outcome[string(tx.ID)] = k.O
@@ -199,6 +257,21 @@ func samePayload(a, b [][2]int) bool {
 	return true
 }
 
+// byteLimit: the size limit in bytes for the abstract limit `units` and delta in {-1, 0, +1} bytes, with the number of
+// whole units that fit (all transactions are multiples of Unit bytes): one byte less than k units holds k-1 units.
+func byteLimit(units, delta int) (bytes, capacity int) {
+	bytes = units*Unit + delta
+	return bytes, bytes / Unit
+}
+
+// admissibleFor: the admissible payloads for a capacity of `capacity` whole units (nothing fits into 0 units)
+func admissibleFor(c *Case, capacity int) [][][2]int {
+	if capacity < 1 {
+		return [][][2]int{{}}
+	}
+	return c.Exp[capacity-1]
+}
+
 // classify compares a payload produced by the real code with the admissible ones; "" = conforming.
 func classify(c *Case, got [][2]int, limit int, admissible [][][2]int) (key, what string) {
 	size := 0
@@ -207,14 +280,14 @@ func classify(c *Case, got [][2]int, limit int, admissible [][][2]int) (key, wha
 		k := c.Pool[e[0]-1][e[1]-1]
 		size += k.Z
 		for j := 0; j < e[1]-1; j++ {
-			if c.Pool[e[0]-1][j].O != "ok" {
+			if !good(c.Pool[e[0]-1][j].O) {
 				return "selection-includes-after-failure", fmt.Sprintf("transaction %d of sender %d is included although transaction %d of that sender failed (%s)", e[1], e[0], j+1, c.Pool[e[0]-1][j].O)
 			}
 		}
 		if e[1] != taken[e[0]]+1 {
 			return "selection-nonce-order", fmt.Sprintf("transaction %d of sender %d is taken after %d of its transactions: per-sender nonce order is not respected", e[1], e[0], taken[e[0]])
 		}
-		if k.O != "ok" {
+		if !good(k.O) {
 			return "selection-includes-failed", fmt.Sprintf("transaction %d of sender %d is included although it fails (%s)", e[1], e[0], k.O)
 		}
 		taken[e[0]] = e[1]
@@ -245,10 +318,16 @@ type genABI struct {
 	mu      sync.Mutex
 	outcome map[string]string
 	asset   byte // != 0: InsertAssets returns the toy asset selecting validator-set choice `asset`
-	header  *blockchain.BlockHeader
-	txs     []*blockchain.Transaction
-	assets  []*blockchain.BlockAsset
-	order   []string
+	// two: InsertAssets returns TWO assets in descending module order ("toy", "aux") - the order in which two modules
+	// registered that way would insert them; block validation demands assets sorted by module
+	two bool
+	// asHooksSee (VERIF_EXPERIMENTAL): the state root depends on the ORDER in which the hooks receive the assets
+	// (default: the application reads its assets by module name, as pkg/framework does)
+	asHooksSee bool
+	header     *blockchain.BlockHeader
+	txs        []*blockchain.Transaction
+	assets     []*blockchain.BlockAsset
+	order      []string
 }
 
 func (a *genABI) InitStateMachine(req *labi.InitStateMachineRequest) (*labi.InitStateMachineResponse, error) {
@@ -259,12 +338,18 @@ func (a *genABI) InitStateMachine(req *labi.InitStateMachineRequest) (*labi.Init
 }
 func (a *genABI) InsertAssets(req *labi.InsertAssetsRequest) (*labi.InsertAssetsResponse, error) {
 	a.order = append(a.order, "assets")
+	if a.two {
+		return &labi.InsertAssetsResponse{Assets: []*blockchain.BlockAsset{{Module: "toy", Data: []byte{a.asset}}, {Module: "aux", Data: []byte{7, 7}}}}, nil
+	}
 	if a.asset != 0 {
 		return &labi.InsertAssetsResponse{Assets: []*blockchain.BlockAsset{{Module: "toy", Data: []byte{a.asset}}}}, nil
 	}
 	return &labi.InsertAssetsResponse{}, nil
 }
 func (a *genABI) VerifyTransaction(req *labi.VerifyTransactionRequest) (*labi.VerifyTransactionResponse, error) {
+	if a.outcome[string(req.Transaction.ID)] == "ve" {
+		return nil, fmt.Errorf("application: VerifyTransaction is not available")
+	}
 	if a.outcome[string(req.Transaction.ID)] == "vf" {
 		return &labi.VerifyTransactionResponse{Result: labi.TxVerifyResultInvalid}, nil
 	}
@@ -275,6 +360,9 @@ func (a *genABI) VerifyTransaction(req *labi.VerifyTransactionRequest) (*labi.Ve
 	return &labi.VerifyTransactionResponse{Result: labi.TxVerifyResultOk}, nil
 }
 func (a *genABI) ExecuteTransaction(req *labi.ExecuteTransactionRequest) (*labi.ExecuteTransactionResponse, error) {
+	if a.outcome[string(req.Transaction.ID)] == "xr" {
+		return nil, fmt.Errorf("application: ExecuteTransaction is not available")
+	}
 	if a.outcome[string(req.Transaction.ID)] == "xf" {
 		// an application that logged events before it rejected the transaction: the transaction is dropped, and so is
 		// everything it produced (every other rejected transaction: with events)
@@ -297,7 +385,11 @@ func (a *genABI) AfterTransactionsExecute(req *labi.AfterTransactionsExecuteRequ
 func (a *genABI) Commit(req *labi.CommitRequest) (*labi.CommitResponse, error) {
 	if req.DryRun {
 		a.order = append(a.order, "commit-dry")
-		return &labi.CommitResponse{StateRoot: node.NextRoot(req.StateRoot, a.header.Height, a.txs, a.assets)}, nil
+		assets := append(blockchain.BlockAssets{}, a.assets...)
+		if !a.asHooksSee {
+			assets.Sort()
+		}
+		return &labi.CommitResponse{StateRoot: node.NextRoot(req.StateRoot, a.header.Height, a.txs, assets)}, nil
 	}
 	return a.Toy.Commit(req)
 }
@@ -342,7 +434,38 @@ func runSelect(casesPath, outPath string) {
 }
 
 func shape(c *Case) string {
-	return fmt.Sprintf("%d-%d-%d", len(c.Pool[0]), len(c.Pool[1]), len(c.Pool[2]))
+	parts := []string{}
+	for _, l := range c.Pool {
+		parts = append(parts, fmt.Sprint(len(l)))
+	}
+	return strings.Join(parts, "-")
+}
+
+// usesSkip: the payload uses the freedom the statement leaves at a candidate that does not fit (leave that sender out and
+// go on instead of stopping): a transaction is taken at a moment at which a strictly better ranked next transaction of
+// another live sender did not fit.  Coverage only (today's code always stops: 0).
+func usesSkip(c *Case, got [][2]int, limit int) bool {
+	size := 0
+	taken := map[int]int{}
+	for _, e := range got {
+		k := c.Pool[e[0]-1][e[1]-1]
+		for s := range c.Pool {
+			if s+1 == e[0] || taken[s+1] >= len(c.Pool[s]) {
+				continue
+			}
+			live := true
+			for j := 0; j <= taken[s+1]; j++ {
+				live = live && good(c.Pool[s][j].O)
+			}
+			nx := c.Pool[s][taken[s+1]]
+			if live && nx.R > k.R && size+nx.Z > limit {
+				return true
+			}
+		}
+		size += k.Z
+		taken[e[0]] = e[1]
+	}
+	return false
 }
 
 func selectCase(g *generator.Generator, abi *genABI, c *Case, rnd *rand.Rand) {
@@ -351,12 +474,12 @@ func selectCase(g *generator.Generator, abi *genABI, c *Case, rnd *rand.Rand) {
 			viol("panic:select", fmt.Sprintf("selectTransactionsByFee panicked: %v", e), map[string]interface{}{"mode": "select", "case": c})
 		}
 	}()
-	cc := concretise(c, 1)
-	abi.outcome = cc.outcome
 	failed := false
+	outcomes := map[string]bool{}
 	for _, l := range c.Pool {
 		for _, k := range l {
-			if k.O != "ok" {
+			outcomes[k.O] = true
+			if !good(k.O) {
 				failed = true
 			}
 		}
@@ -367,6 +490,9 @@ func selectCase(g *generator.Generator, abi *genABI, c *Case, rnd *rand.Rand) {
 		if failed {
 			out.WithFailure++
 		}
+		for o := range outcomes {
+			out.OutcomeSel[o]++
+		}
 	})
 	total := 0
 	for _, l := range c.Pool {
@@ -374,15 +500,24 @@ func selectCase(g *generator.Generator, abi *genABI, c *Case, rnd *rand.Rand) {
 			total += k.Z
 		}
 	}
-	for limit := 1; limit <= len(c.Exp); limit++ {
+	// every case and limit under both rank tables (the specification fixes the order of the priorities only)
+	for lt := 0; lt < 2*len(c.Exp); lt++ {
+		limit, tab := 1+lt/2, lt%2
+		// the limit in bytes: exactly `limit` units, one byte less (one unit less fits) or one byte more (nothing more fits)
+		delta := (len(c.Pool)+total+limit+tab)%3 - 1
+		maxBytes, capacity := byteLimit(limit, delta)
+		cc := concretise(c, uint64(limit), tab)
+		abi.outcome = cc.outcome
 		txs := append([]*blockchain.Transaction{}, cc.txs...)
 		rnd.Shuffle(len(txs), func(i, j int) { txs[i], txs[j] = txs[j], txs[i] })
 		hdr := &blockchain.BlockHeader{Version: 2, Height: 1, Timestamp: 1}
 		abi.Toy.Calls = nil
 		abi.order = nil
-		sel, err := g.VerifSelectByFee(hdr, nil, txs, limit*Unit)
+		sel, err := g.VerifSelectByFee(hdr, nil, txs, maxBytes)
 		if err != nil {
-			viol("selection-error", "selectTransactionsByFee failed: "+err.Error(), map[string]interface{}{"mode": "select", "case": c})
+			// no payload, no block: the statement is about the blocks that are produced.  Counted; a run in which this
+			// happens is inconclusive (the driver), never a violation
+			count(func() { out.SelAborted++ })
 			continue
 		}
 		got, known := cc.payload(sel)
@@ -396,15 +531,31 @@ func selectCase(g *generator.Generator, abi *genABI, c *Case, rnd *rand.Rand) {
 		}
 		count(func() {
 			out.Selections++
-			if len(c.Exp[limit-1]) > 1 {
+			if len(admissibleFor(c, capacity)) > 1 {
 				out.Ambiguous++
+			}
+			out.LimitDelta[fmt.Sprint(delta)]++
+			if size == capacity && delta == 0 && len(got) > 0 {
+				out.ExactSel++
 			}
 			if size < total && len(got) < len(cc.txs) && !failed {
 				out.LimitHit++
 			}
+			if tab == 1 {
+				out.TabBoundary++
+			}
+			if len(c.Pool) >= 5 {
+				out.Wide++
+			}
+			if len(got) >= 7 {
+				out.Deep++
+			}
+			if usesSkip(c, got, capacity) {
+				out.SkipUsed++
+			}
 		})
-		if key, what := classify(c, got, limit, c.Exp[limit-1]); key != "" {
-			viol(key, fmt.Sprintf("pool %v, limit %d: %s", c.Pool, limit, what), map[string]interface{}{"mode": "select", "case": c, "limit": limit})
+		if key, what := classify(c, got, capacity, admissibleFor(c, capacity)); key != "" {
+			viol(key, fmt.Sprintf("pool %v, limit %d bytes (%d units of %d bytes %+d): %s", c.Pool, maxBytes, limit, Unit, delta, what), map[string]interface{}{"mode": "select", "case": c, "limit": limit})
 		}
 	}
 }
@@ -437,12 +588,15 @@ type Step struct {
 }
 
 type Script struct {
-	Script   []Step  `json:"script"`
-	Critical bool    `json:"critical"`
-	Idx      *int    `json:"idx,omitempty"`
-	Cases    []*Case `json:"cases,omitempty"`
-	Extra    string  `json:"extra,omitempty"`
-	Signers  []int   `json:"signers,omitempty"` // validators whose single commits reach the pool (nil = all)
+	Script   []Step `json:"script"`
+	Critical bool   `json:"critical"`
+	ChgForge bool   `json:"chgforge,omitempty"`
+	// Next[g-1]: the maxHeightGenerated the specification expects in the NEXT header of own generator g after the script
+	Next    []uint32 `json:"next,omitempty"`
+	Idx     *int     `json:"idx,omitempty"`
+	Cases   []*Case  `json:"cases,omitempty"`
+	Extra   string   `json:"extra,omitempty"`
+	Signers []int    `json:"signers,omitempty"` // validators whose single commits reach the pool (nil = all)
 }
 
 // ---------------------------------------------------------------------------------------------- strict file system for the generator DB
@@ -669,11 +823,79 @@ type HCfg struct {
 }
 
 func slotOf(gens []int, after int, gen int) int {
-	for s := after + 1; ; s++ {
+	for s := after + 1; s <= after+4*len(gens)+4; s++ {
 		if gens[s%len(gens)] == gen {
 			return s
 		}
 	}
+	panic(fmt.Sprintf("validator %d is not in the generator list %v", gen, gens))
+}
+
+// gensAt: the generator list in force for the block on top of a chain whose blocks carried the validator-set choices chgs
+func gensAt(cfg *node.Config, chgs []int) []int {
+	g := cfg.Init.Gens
+	for _, c := range chgs {
+		if c > 0 && c <= len(cfg.Choices) {
+			g = cfg.Choices[c-1].Gens
+		}
+	}
+	return g
+}
+
+// fills[{c, k}]: the cases whose admissible payloads for a limit of c units all consist of k transactions that fill the c
+// units exactly (with one byte less the last of them must stay out, with one byte more nothing else fits); rich: the cases
+// with at least 4 transactions.  Built once from the TLC-printed cases (runForge).
+var (
+	fills = map[[2]int][]int{}
+	rich  []int
+)
+
+func indexCases(cases []*Case) {
+	for ci, c := range cases {
+		n := 0
+		for _, l := range c.Pool {
+			n += len(l)
+		}
+		if n >= 4 {
+			rich = append(rich, ci)
+		}
+		for capacity := 1; capacity <= 6 && capacity <= len(c.Exp); capacity++ {
+			k := -1
+			for _, p := range c.Exp[capacity-1] {
+				size := 0
+				for _, e := range p {
+					size += c.Pool[e[0]-1][e[1]-1].Z
+				}
+				if size != capacity || (k >= 0 && k != len(p)) {
+					k = -2
+					break
+				}
+				k = len(p)
+			}
+			if k >= 1 {
+				fills[[2]int{capacity, k}] = append(fills[[2]int{capacity, k}], ci)
+			}
+		}
+	}
+}
+
+// pickCase: the pool of forge number nforge of script idx.  Every second forge gets a pool whose best selection fills the
+// limit of this script (in units) exactly with k = 1..4 transactions (the scripts' byte limits are that, one byte less
+// and one byte more); the others alternate between pools of >= 4 transactions and all cases.
+func pickCase(cases []*Case, idx, nforge, limit int) *Case {
+	x := idx*7919 + nforge*104729
+	if nforge%2 == 0 {
+		for d := 0; d < 4; d++ {
+			k := 1 + (idx/18+nforge/2+d)%4
+			if l := fills[[2]int{limit, k}]; len(l) > 0 {
+				return cases[l[x%len(l)]]
+			}
+		}
+	}
+	if nforge%4 == 1 && len(rich) > 0 {
+		return cases[rich[x%len(rich)]]
+	}
+	return cases[x%len(cases)]
 }
 
 func replay(h *HCfg, sc *Script, idx int, cases []*Case) {
@@ -681,28 +903,53 @@ func replay(h *HCfg, sc *Script, idx int, cases []*Case) {
 		idx = *sc.Idx
 	}
 	limit := 1 + idx%6
+	// MaxTransactionsSize / MaxTransactionsLength in bytes: exactly `limit` units (payloads of 1..6 transactions that fill the
+	// limit to the byte), one byte less, one byte more
+	maxBytes, capacity := byteLimit(limit, (idx/6)%3-1)
 	// ---- plan the slots: real time only moves forward, so every new block gets a later slot than all earlier ones
+	// (the generator list is the one in force at the block's height on the chain the node follows at that step)
 	slots := map[string]int{}
 	used := 0
 	lastForge := -1
 	lastBlockStep := -1
+	chgs := []int{}           // validator-set choice carried by every block of the current chain
+	afterChg := map[int]int{} // forge step -> 1: a change is in force, 2: the tip is the changing block
 	for i := range sc.Script {
 		s := &sc.Script[i]
 		switch s.Op {
 		case "forge", "recv":
-			used = slotOf(h.Node.Init.Gens, used, s.Gen)
+			used = slotOf(gensAt(&h.Node, chgs), used, s.Gen)
 			slots[fmt.Sprint(i)] = used
 			lastBlockStep = i
 			if s.Op == "forge" {
 				lastForge = i
+				for k, c := range chgs {
+					if c > 0 {
+						afterChg[i] = 1
+						if k == len(chgs)-1 {
+							afterChg[i] = 2
+						}
+					}
+				}
+			}
+			if s.Op == "recv" || s.Handed {
+				chgs = append(chgs, s.Chg)
 			}
 		case "switch":
+			if s.Del <= len(chgs) {
+				chgs = chgs[:len(chgs)-s.Del]
+			}
 			for j := range s.Blocks {
-				used = slotOf(h.Node.Init.Gens, used, s.Blocks[j].Gen)
+				used = slotOf(gensAt(&h.Node, chgs), used, s.Blocks[j].Gen)
 				slots[fmt.Sprintf("%d.%d", i, j)] = used
+				chgs = append(chgs, s.Blocks[j].Chg)
 			}
 			lastBlockStep = i
 		}
+	}
+	epiSlot := 0
+	if lastForge >= 0 && sc.Next != nil {
+		epiSlot = slotOf(gensAt(&h.Node, chgs), used, sc.Script[lastForge].Gen)
 	}
 	realIdx := -1
 	if lastForge >= 0 && lastForge == lastBlockStep {
@@ -710,11 +957,15 @@ func replay(h *HCfg, sc *Script, idx int, cases []*Case) {
 	}
 	cfg := h.Node
 	cfg.Now = used
-	cfg.MaxTxs = uint32(limit * Unit)
+	cfg.MaxTxs = uint32(maxBytes)
 	used2 := []*Case{}
 	rep := func(i int) interface{} {
 		id := idx
-		return map[string]interface{}{"mode": "forge", "script": sc.Script[:i+1], "idx": &id, "cases": used2, "extra": sc.Extra, "signers": sc.Signers, "critical": sc.Critical}
+		m := map[string]interface{}{"mode": "forge", "script": sc.Script[:i+1], "idx": &id, "cases": used2, "extra": sc.Extra, "signers": sc.Signers, "critical": sc.Critical}
+		if i == len(sc.Script)-1 && sc.Next != nil {
+			m["next"] = sc.Next
+		}
+		return m
 	}
 	logger, _ := log.NewSilentLogger()
 	n, err := node.New(&cfg, nil, 0)
@@ -782,6 +1033,37 @@ func replay(h *HCfg, sc *Script, idx int, cases []*Case) {
 		return true
 	}
 
+	// pairwise non-contradiction of a new own header with everything this generator handed on before
+	checkPairs := func(hv hdrView, gen int, i int) {
+		for _, old := range signed {
+			if !bytes.Equal(old.gen, hv.gen) {
+				continue
+			}
+			count(func() { out.Pairs++ })
+			real := contradiction.AreDistinctHeadersContradicting(old.hdrView, hv)
+			spec := specContra(old.hdrView, hv)
+			if real != spec {
+				herr("contradiction oracle mismatch: real %v spec %v for %+v / %+v", real, spec, old.hdrView, hv)
+			}
+			if real || spec {
+				// context of the pair: the statement's scenario (generating below the largest height ever after fork
+				// choice moved the node to another chain), a restart in between, or neither
+				kind := "other"
+				switch {
+				case lowAfterSw[gen]:
+					kind = "lower-height-after-switch"
+				case old.afterSw < nsw:
+					kind = "after-switch"
+				case old.epoch < epoch:
+					kind = "after-restart"
+				}
+				viol("self-contradiction:"+kind, fmt.Sprintf("generator %d handed on (height %d, maxHeightPrevoted %d, maxHeightGenerated %d) at step %d and (height %d, maxHeightPrevoted %d, maxHeightGenerated %d) at step %d: the two headers contradict (LIP-0014)",
+					gen, old.h, old.mhp, old.mhg, old.step, hv.h, hv.mhp, hv.mhg, i), rep(min(i, len(sc.Script)-1)))
+			}
+		}
+	}
+	completed := false
+
 	for i := range sc.Script {
 		s := &sc.Script[i]
 		count(func() { out.Steps++ })
@@ -827,11 +1109,11 @@ func replay(h *HCfg, sc *Script, idx int, cases []*Case) {
 					cs = sc.Cases[nforge]
 				}
 			} else if len(cases) > 0 {
-				cs = cases[(idx*7+nforge)%len(cases)]
+				cs = pickCase(cases, idx, nforge, limit)
 			}
 			used2 = append(used2, cs)
 			if cs != nil {
-				cc = concretise(cs, uint64(idx)<<16|uint64(i)+2)
+				cc = concretise(cs, uint64(idx)<<16|uint64(i)+2, (idx+nforge)%2)
 				r.abi.outcome = cc.outcome
 				for _, tx := range cc.txs {
 					if !r.pool.Add(tx) {
@@ -846,22 +1128,13 @@ func replay(h *HCfg, sc *Script, idx int, cases []*Case) {
 				r.abi.outcome = map[string]string{}
 			}
 			r.abi.asset = byte(s.Chg)
+			// every third forge: two block assets, returned by the application in descending module order
+			r.abi.two = sc.Extra == "" && (idx+nforge)%3 == 0
+			r.abi.asHooksSee = experimental
 			nforge++
 			// ---- hand-off monitor: at the moment the block is handed on the info must already be persisted
 			r.added = nil
-			persistedAtHandoff := true
-			var infoAtHandoff *generator.GeneratorInfo
-			r.atAdd = func(b *blockchain.Block) {
-				info, exist, err := r.g.VerifGeneratorInfo(b.Header.GeneratorAddress)
-				infoAtHandoff = info
-				if err != nil || !exist || info.Height != b.Header.Height {
-					persistedAtHandoff = false
-				}
-				if s.Crash {
-					// the process dies here: nothing written from now on reaches the disk
-					r.fs.mem.SetIgnoreSyncs(true)
-				}
-			}
+			mon := r.watchHandoff(ever, s.Crash)
 			var ferr error
 			func() {
 				defer func() {
@@ -883,22 +1156,48 @@ func replay(h *HCfg, sc *Script, idx int, cases []*Case) {
 					out.Crashes++
 				}
 			})
-			if ferr != nil || len(r.added) != 1 {
-				key := "generator-produces-no-block"
-				if ferr != nil && strings.HasPrefix(ferr.Error(), "panic") {
-					key = "panic:forge"
+			if ferr != nil && strings.HasPrefix(ferr.Error(), "panic") || len(r.added) > 1 {
+				key := "panic:forge"
+				if len(r.added) > 1 {
+					key = "forge-hands-on-several-blocks"
 				}
-				viol(key, fmt.Sprintf("generator %d produces no block for height %d in its slot %d (real forge(): %v): %v; blocks handed on: %d", s.Gen, s.H, slot, i == realIdx, ferr, len(r.added)), rep(i))
+				viol(key, fmt.Sprintf("generator %d, height %d, slot %d (real forge(): %v): %v; blocks handed on: %d", s.Gen, s.H, slot, i == realIdx, ferr, len(r.added)), rep(i))
+				return
+			}
+			if len(r.added) == 0 {
+				// the generator declines / fails to generate: the statement is about the blocks that ARE produced, so this is
+				// no violation - but the script cannot be followed any further, and a run in which it happens is inconclusive
+				count(func() { out.Declined++ })
+				herrDeclined(fmt.Sprintf("script %d step %d: generator %d produces no block for height %d in its slot %d (real forge(): %v): %v", idx, i, s.Gen, s.H, slot, i == realIdx, ferr))
 				return
 			}
 			b := r.added[0]
 			hv := hdrView{gen: b.Header.GeneratorAddress, h: b.Header.Height, mhp: b.Header.MaxHeightPrevoted, mhg: b.Header.MaxHeightGenerated}
 			if !bytes.Equal(b.Header.GeneratorAddress, val.Address) {
-				viol("forge-wrong-generator", fmt.Sprintf("block generated by %x in the slot of validator %d", b.Header.GeneratorAddress, s.Gen), rep(i))
+				// generated with another key the node holds: what does the node's own validation say?
+				perr := r.process(b)
+				if !bytes.Equal(r.n.Tip().Header.ID, b.Header.ID) {
+					count(func() { out.Rejected++ })
+					viol("generated-block-rejected:"+reason(perr), fmt.Sprintf("in the slot %d of validator %d (height %d) the node generates with the key of validator %d; the same node rejects the block: %v",
+						slot, s.Gen, s.H, genOf(&cfg, b.Header.GeneratorAddress), perr), rep(i))
+				} else {
+					viol("forge-wrong-generator", fmt.Sprintf("block generated by validator %d (%x) in the slot of validator %d", genOf(&cfg, b.Header.GeneratorAddress), b.Header.GeneratorAddress, s.Gen), rep(i))
+				}
 				return
 			}
-			if !persistedAtHandoff {
-				viol("info-not-persisted-before-handoff", fmt.Sprintf("when the block of height %d is handed to consensus the generator database holds %+v for its generator", hv.h, infoAtHandoff), rep(i))
+			count(func() {
+				if afterChg[i] > 0 {
+					out.ChgForges++
+				}
+				if afterChg[i] == 2 {
+					out.ChgFirst++
+				}
+				if mon.layout {
+					out.InfoLayout++
+				}
+			})
+			if !mon.ok {
+				viol("info-not-persisted-before-handoff", fmt.Sprintf("when the block of height %d is handed to consensus the generator database holds %+v for its generator (the largest height it ever generated is %d)", hv.h, mon.info, max32(ever[s.Gen], hv.h)), rep(i))
 			}
 			// ---- header fields against the specification and against the statement directly
 			if hv.h != s.H {
@@ -922,32 +1221,7 @@ func replay(h *HCfg, sc *Script, idx int, cases []*Case) {
 			}
 			// ---- pairwise non-contradiction with everything this generator handed on before
 			if !s.Crash {
-				for _, old := range signed {
-					if !bytes.Equal(old.gen, hv.gen) {
-						continue
-					}
-					count(func() { out.Pairs++ })
-					real := contradiction.AreDistinctHeadersContradicting(old.hdrView, hv)
-					spec := specContra(old.hdrView, hv)
-					if real != spec {
-						herr("contradiction oracle mismatch: real %v spec %v for %+v / %+v", real, spec, old.hdrView, hv)
-					}
-					if real || spec {
-						// context of the pair: the statement's scenario (generating below the largest height ever after fork
-						// choice moved the node to another chain), a restart in between, or neither
-						kind := "other"
-						switch {
-						case lowAfterSw[s.Gen]:
-							kind = "lower-height-after-switch"
-						case old.afterSw < nsw:
-							kind = "after-switch"
-						case old.epoch < epoch:
-							kind = "after-restart"
-						}
-						viol("self-contradiction:"+kind, fmt.Sprintf("generator %d handed on (height %d, maxHeightPrevoted %d, maxHeightGenerated %d) at step %d and (height %d, maxHeightPrevoted %d, maxHeightGenerated %d) at step %d: the two headers contradict (LIP-0014)",
-							s.Gen, old.h, old.mhp, old.mhg, old.step, hv.h, hv.mhp, hv.mhg, i), rep(i))
-					}
-				}
+				checkPairs(hv, s.Gen, i)
 				signed = append(signed, signedHdr{hv, i, epoch, nsw})
 			}
 			// ---- payload against the statement
@@ -955,8 +1229,8 @@ func replay(h *HCfg, sc *Script, idx int, cases []*Case) {
 				got, known := cc.payload(b.Transactions)
 				if !known {
 					viol("selection-unknown-transaction", "the generated block contains a transaction that is not in the pool", rep(i))
-				} else if key, what := classify(cs, got, limit, cs.Exp[limit-1]); key != "" {
-					viol(key, fmt.Sprintf("generated block at height %d, pool %v, limit %d: %s", hv.h, cs.Pool, limit, what), rep(i))
+				} else if key, what := classify(cs, got, capacity, admissibleFor(cs, capacity)); key != "" {
+					viol(key, fmt.Sprintf("generated block at height %d, pool %v, limit %d bytes (%d whole units of %d bytes): %s", hv.h, cs.Pool, maxBytes, capacity, Unit, what), rep(i))
 				}
 			}
 			psize := 0
@@ -973,11 +1247,14 @@ func replay(h *HCfg, sc *Script, idx int, cases []*Case) {
 				}
 				info, _, err := r.g.VerifGeneratorInfo(val.Address)
 				count(func() { out.InfoReads++ })
-				if err != nil || info.Height != hv.h {
-					viol("info-not-persisted-before-handoff", fmt.Sprintf("after a crash at the hand-off of the block of height %d the restarted generator database holds %+v (err %v)", hv.h, info, err), rep(i))
+				if err != nil || max32(info.Height, info.MaxHeightGenerated) != ever[s.Gen] {
+					viol("info-not-persisted-before-handoff", fmt.Sprintf("after a crash at the hand-off of the block of height %d the restarted generator database holds %+v (err %v); the largest height generator %d ever generated is %d", hv.h, info, err, s.Gen, ever[s.Gen]), rep(i))
 				}
 				if !checkObs(s, i) {
 					return
+				}
+				if i == len(sc.Script)-1 {
+					completed = true
 				}
 				continue
 			}
@@ -990,19 +1267,17 @@ func replay(h *HCfg, sc *Script, idx int, cases []*Case) {
 					}
 				})
 			}
-			var perr error
-			func() {
-				defer func() {
-					if e := recover(); e != nil {
-						perr = fmt.Errorf("panic: %v", e)
-					}
-				}()
-				perr = r.n.Ex.VerifProcess(b, peer)
-			}()
+			unsorted := r.abi.two // the application returned two assets in descending module order
+			perr := r.process(b)
 			if !bytes.Equal(r.n.Tip().Header.ID, b.Header.ID) {
 				count(func() { out.Rejected++ })
-				viol("generated-block-rejected:"+reason(perr), fmt.Sprintf("the block generator %d produced for height %d (maxHeightPrevoted %d, maxHeightGenerated %d, %d transactions, aggregate commit height %d, validator change %d) is rejected by the same node: %v",
-					s.Gen, hv.h, hv.mhp, hv.mhg, len(b.Transactions), b.Header.AggregateCommit.Height, s.Chg, perr), rep(i))
+				key := "generated-block-rejected:" + reason(perr)
+				if experimental && unsorted && reason(perr) == "state-root" {
+					// VERIF_EXPERIMENTAL: the application's state depends on the order in which the hooks receive the assets
+					key = "generated-block-rejected:hooks-see-unsorted-assets"
+				}
+				viol(key, fmt.Sprintf("the block generator %d produced for height %d (maxHeightPrevoted %d, maxHeightGenerated %d, %d transactions, %d assets, aggregate commit height %d, validator change %d) is rejected by the same node: %v",
+					s.Gen, hv.h, hv.mhp, hv.mhg, len(b.Transactions), len(b.Assets), b.Header.AggregateCommit.Height, s.Chg, perr), rep(i))
 				return
 			}
 			count(func() {
@@ -1011,22 +1286,170 @@ func replay(h *HCfg, sc *Script, idx int, cases []*Case) {
 					out.WithTxs++
 					out.TxsIncluded += len(b.Transactions)
 				}
+				if len(b.Assets) == 2 && r.abi.two {
+					out.TwoAssets++
+				}
+				if psize == maxBytes && len(b.Transactions) > 0 {
+					// the payload fills the limit to the byte
+					k := fmt.Sprint(len(b.Transactions))
+					out.ExactFill[k]++
+					if i == realIdx {
+						out.ExactFillReal[k]++
+					}
+				}
+				out.DeltaForge[fmt.Sprint(maxBytes-limit*Unit)]++
+				if cfg.AfterEvent {
+					out.AfterEvents++
+				}
+				hasFail, hasErr := false, false
+				for _, tx := range b.Transactions {
+					hasFail = hasFail || tx.Command == node.FailCommand
+				}
+				if cs != nil {
+					for _, l := range cs.Pool {
+						for _, k := range l {
+							hasErr = hasErr || k.O == "ve" || k.O == "xr"
+						}
+					}
+				}
+				if hasFail {
+					out.FailTxs++
+				}
+				if hasErr {
+					out.ErrPools++
+				}
 			})
 			r.deliver()
+			// what the statement says about the stored record: it covers the largest height ever generated (the exact
+			// layout - today {height, maxHeightPrevoted, maxHeightGenerated} of the last header - is the code's business)
 			info, _, err := r.g.VerifGeneratorInfo(val.Address)
 			count(func() { out.InfoReads++ })
-			if err != nil || info.Height != s.Info.H || info.MaxHeightPrevoted != s.Info.Mhp {
-				viol("info-mismatch", fmt.Sprintf("generator info after generating height %d is %+v, expected %+v", hv.h, info, s.Info), rep(i))
+			if err != nil || max32(info.Height, info.MaxHeightGenerated) != max32(s.Info.H, s.Info.Mhg) {
+				viol("info-mismatch", fmt.Sprintf("generator info after generating height %d is %+v: it does not record the largest height ever generated, %d (specification %+v)", hv.h, info, max32(s.Info.H, s.Info.Mhg), s.Info), rep(i))
+			}
+			if i == len(sc.Script)-1 {
+				completed = true
 			}
 		default:
 			herr("unknown step %q", s.Op)
 			return
 		}
 		if s.Op != "forge" || !s.Crash {
-			if s.Chg == 0 && !checkObs(s, i) {
+			// (the hand-written validator-change scenario carries no expected observation)
+			if (s.Chg == 0 || sc.Extra == "") && !checkObs(s, i) {
 				return
 			}
 		}
+	}
+
+	// ---- epilogue: the production forge() is followed by a restart and one more header of the same generator
+	// (G1: whatever forge() left in the generator database is what the next header's maxHeightGenerated is computed from).
+	// The slot lies in the future of the wall clock, so the block is not processed: header only.
+	if !completed || realIdx < 0 || realIdx != len(sc.Script)-1 || sc.Next == nil {
+		return
+	}
+	last := &sc.Script[realIdx]
+	if last.Gen < 1 || last.Gen > len(sc.Next) {
+		return
+	}
+	below := last.H < ever[last.Gen]
+	if !restart(false, len(sc.Script)-1) {
+		return
+	}
+	r.added = nil
+	mon := r.watchHandoff(ever, false)
+	var ferr error
+	func() {
+		defer func() {
+			if e := recover(); e != nil {
+				ferr = fmt.Errorf("panic: %v", e)
+			}
+		}()
+		_, ferr = r.g.VerifForgeOnce(int64(r.n.Slot.GetSlotTime(epiSlot)) + int64(node.BlockTime)/2)
+	}()
+	r.atAdd = nil
+	if ferr != nil && strings.HasPrefix(ferr.Error(), "panic") {
+		viol("panic:forge", fmt.Sprintf("generator %d, restarted after the script, slot %d: %v", last.Gen, epiSlot, ferr), rep(len(sc.Script)-1))
+		return
+	}
+	if len(r.added) != 1 {
+		count(func() { out.Declined++ })
+		herrDeclined(fmt.Sprintf("script %d: generator %d, restarted after the script, produces no block in its slot %d: %v", idx, last.Gen, epiSlot, ferr))
+		return
+	}
+	b := r.added[0]
+	hv := hdrView{gen: b.Header.GeneratorAddress, h: b.Header.Height, mhp: b.Header.MaxHeightPrevoted, mhg: b.Header.MaxHeightGenerated}
+	if !bytes.Equal(hv.gen, node.Validator(last.Gen).Address) {
+		herr("script %d: epilogue header generated by %x in the slot of validator %d", idx, hv.gen, last.Gen)
+		return
+	}
+	count(func() {
+		out.Epilogues++
+		if below {
+			out.EpiBelow++
+		}
+	})
+	if hv.mhg != sc.Next[last.Gen-1] || hv.mhg != ever[last.Gen] {
+		viol("mhg-not-largest-ever:after-unmodified-forge", fmt.Sprintf("generator %d generated height %d through the unmodified forge() and was restarted; its next header (height %d) reports maxHeightGenerated %d; the largest height it ever generated is %d (specification %d)",
+			last.Gen, last.H, hv.h, hv.mhg, ever[last.Gen], sc.Next[last.Gen-1]), rep(len(sc.Script)-1))
+	}
+	if !mon.ok {
+		viol("info-not-persisted-before-handoff", fmt.Sprintf("when the block of height %d (first one after the restart that followed the unmodified forge()) is handed to consensus the generator database holds %+v for its generator (the largest height it ever generated is %d)", hv.h, mon.info, max32(ever[last.Gen], hv.h)), rep(len(sc.Script)-1))
+	}
+	checkPairs(hv, last.Gen, len(sc.Script))
+}
+
+func max32(a, b uint32) uint32 {
+	if a > b {
+		return a
+	}
+	return b
+}
+
+type handoff struct {
+	ok     bool // the stored record covers the largest height ever generated (incl. the block being handed on)
+	layout bool // ... but is not {height, maxHeightPrevoted, maxHeightGenerated} of that block (coverage only)
+	info   *generator.GeneratorInfo
+}
+
+// watchHandoff installs the hand-off monitor: at the moment a block is handed to consensus the generator database must
+// already record the largest height its generator ever generated (the statement: "persisted before the block is handed on").
+func (r *rig) watchHandoff(ever map[int]uint32, crash bool) *handoff {
+	m := &handoff{ok: true}
+	r.atAdd = func(b *blockchain.Block) {
+		info, exist, err := r.g.VerifGeneratorInfo(b.Header.GeneratorAddress)
+		m.info = info
+		largest := max32(ever[genOf(r.cfg, b.Header.GeneratorAddress)], b.Header.Height)
+		if err != nil || !exist || max32(info.Height, info.MaxHeightGenerated) != largest {
+			m.ok = false
+		} else if info.Height != b.Header.Height || info.MaxHeightPrevoted != b.Header.MaxHeightPrevoted || info.MaxHeightGenerated != b.Header.MaxHeightGenerated {
+			m.layout = true
+		}
+		if crash {
+			// the process dies here: nothing written from now on reaches the disk
+			r.fs.mem.SetIgnoreSyncs(true)
+		}
+	}
+	return m
+}
+
+// process hands a block to the node's own block processing (what AddInternal leads to).
+func (r *rig) process(b *blockchain.Block) (perr error) {
+	defer func() {
+		if e := recover(); e != nil {
+			perr = fmt.Errorf("panic: %v", e)
+		}
+	}()
+	return r.n.Ex.VerifProcess(b, peer)
+}
+
+var experimental = os.Getenv("VERIF_EXPERIMENTAL") == "1"
+
+func herrDeclined(msg string) {
+	mu.Lock()
+	defer mu.Unlock()
+	if len(out.DeclinedNotes) < 5 {
+		out.DeclinedNotes = append(out.DeclinedNotes, msg)
 	}
 }
 
@@ -1105,6 +1528,7 @@ func runForge(scriptsPath, casesPath, cfgPath, outPath string) {
 		}
 		f.Close()
 	}
+	indexCases(cases)
 	scripts := []*Script{}
 	f, err := os.Open(scriptsPath)
 	if err != nil {
@@ -1179,6 +1603,10 @@ func main() {
 	if len(os.Args) >= 6 && os.Args[1] == "handover" {
 		runHandover(os.Args[2], os.Args[3], os.Args[4], os.Args[5])
 		finish(os.Args[5], t0)
+		return
+	}
+	if len(os.Args) >= 4 && os.Args[1] == "guard" {
+		runGuard(os.Args[2], os.Args[3])
 		return
 	}
 	fmt.Fprintln(os.Stderr, "usage: c15 select <cases.ndjson> <out.json> | c15 forge <scripts.ndjson> <cases.ndjson|-> <config.json> <out.json>")
